@@ -61,6 +61,7 @@ if GLIB:
     from simpleline.event_loop import glib_event_loop as GEL            # noqa
 # ---- C20 GLib branch (end)
 
+GETPASS_PROMPTS = []          # what the framework hands to the password function (getpass writes it to the console)
 CLS = {ExceptionSignal: 0, RenderScreenSignal: 1, CloseScreenSignal: 2, InputReceivedSignal: 3, InputReadySignal: 4}
 # the application's own signal classes (ScreenSem.CLS_CUSTOM c = 5 + c)
 CUSTOM = [type("Custom%d" % c, (AbstractSignal,), {}) for c in range(8)]
@@ -84,6 +85,7 @@ class Stuck(BaseException):
 
 def run_session(case):
     fuel, specs, typed, quit_, run_empty, actions = case[:6]
+    del GETPASS_PROMPTS[:]
     kinds = case[6] if len(case) > 6 else None      # optional: kinds[i] != "plain" = use the REAL stock class (harness/adv_specs.py)
     log = []
     st = dict(nsig=0, nq=0, lastget=None, steps=0, nsd=0, lastpop=None, nih=0)
@@ -463,7 +465,8 @@ def run_session(case):
                 # every other screen takes hidden (password) input: same behaviour, other code path
                 # (PasswordInputHandler / PasswordInputHandlerRequest); the password function is the scripted reader
                 self.hide_user_input = True
-                self.password_func = lambda prompt: fake_get_input()
+                # like getpass: the prompt it is given is written to the console, then the (scripted) line is read
+                self.password_func = lambda prompt: (GETPASS_PROMPTS.append(prompt), sys.stdout.write(prompt), fake_get_input())[2]
 
         def __str__(self):
             return "S%d" % self.i
@@ -591,7 +594,7 @@ def run_session(case):
         else:
             raise AssertionError(kind)
         if name in ("password", "getpassinput"):
-            s.password_func = lambda text_prompt: fake_get_input()      # getpass -> the scripted reader
+            s.password_func = lambda text_prompt: (GETPASS_PROMPTS.append(text_prompt), sys.stdout.write(text_prompt), fake_get_input())[2]      # getpass -> the scripted reader
         s.i = i
         return s
 
@@ -725,6 +728,7 @@ def run_session(case):
             ctl["ta_pending"] = True; ctl["ta_wait"] = True
             ta_done.clear()
             reader_ready.set()
+            sys.stdout.write("\n")                # the terminal echoes the user's ENTER (console capture only)
             if l == []:
                 raise EOFError()
             return "".join(chr(c) for c in l[0])
@@ -734,6 +738,7 @@ def run_session(case):
         if ctl["killed"]:
             raise SystemExit()
         l = ctl["line"]
+        sys.stdout.write("\n")                    # the terminal echoes the user's ENTER (console capture only)
         if l == []:
             raise EOFError()
         return "".join(chr(c) for c in l[0])
@@ -841,7 +846,7 @@ def run_session(case):
             del GLib._running_loops[:]
     stack = [d.sid for d in reversed(sched._screen_stack._screens)]
     levels = [l.lid for l in loop._event_loops] if GLIB else [q.qid for q in loop._event_queues]
-    return [outcomes, log, stack, levels, out.getvalue()]
+    return [outcomes, log, stack, levels, out.getvalue(), list(GETPASS_PROMPTS)]
 
 
 def main():
